@@ -195,3 +195,44 @@ def _all_instance_names(conn, ns):
             if p.classname.lower() == cn.lower():
                 res.append(p)
     return res
+
+
+DMTF_SCHEMA_PRAGMA = "tests/schema/mofFinal2.49.0/cim_schema_2.49.0.mof"
+_NSP_TEMPLATE = None
+
+
+def schema_pragma_file():
+    """Path of the DMTF schema pragma file: the extracted copy in the tree
+    under test, else in /repo, else extracted from the tracked zip into
+    /verif/.work/schema."""
+    import os
+    import zipfile
+    root = os.path.dirname(os.path.dirname(os.path.abspath(pywbem.__file__)))
+    for base in (root, "/repo"):
+        p = os.path.join(base, DMTF_SCHEMA_PRAGMA)
+        if os.path.exists(p):
+            return p
+    here = os.path.dirname(os.path.dirname(os.path.abspath(__file__)))
+    dest = os.path.join(here, ".work", "schema", "mofFinal2.49.0")
+    p = os.path.join(dest, "cim_schema_2.49.0.mof")
+    if not os.path.exists(p):
+        os.makedirs(dest, exist_ok=True)
+        for base in (root, "/repo"):
+            z = os.path.join(base, "tests/schema/cim_schema_2.49.0Final-MOFs.zip")
+            if os.path.exists(z):
+                with zipfile.ZipFile(z) as zf:
+                    zf.extractall(dest)
+                break
+    return p
+
+
+def fresh_with_namespace_provider():
+    """Template content plus an Interop namespace with the CIM_Namespace
+    provider installed (classes from the DMTF schema shipped in tests/)."""
+    global _NSP_TEMPLATE
+    if _NSP_TEMPLATE is None:
+        conn = copy.deepcopy(template())
+        conn.install_namespace_provider(
+            "interop", schema_pragma_file=schema_pragma_file())
+        _NSP_TEMPLATE = conn
+    return copy.deepcopy(_NSP_TEMPLATE)
